@@ -145,7 +145,7 @@ def fam_planner(rng, variant):
     single start state (unreachable states drop out of the inferred state list), explicit prior, default
     iteration cap (None), cap 1 (warning path), planner object first used on another MDP with the same labels
     and cached views of the MDP touched before planning"""
-    m = gen_mdp(rng, nA=rng.choice([1, 2, 3, 4]))
+    m = gen_mdp(rng, nA=rng.choice([3, 4] if variant == "avail" else [1, 2, 3, 4]))
     nS, nA = m["nS"], m["nA"]
     lam = rng.choice(LAMS)
     kind = variant if variant in ("perm", "str", "tuple") else rng.choice(["int", "perm", "str", "tuple"])
@@ -189,6 +189,33 @@ def fam_planner(rng, variant):
         c["iterations"] = 1
     elif variant == "reuse":
         c["decoy"] = True
+    elif variant == "avail":
+        # state-dependent action sets: every action is missing in some state (so an unavailable action is not
+        # last in action_list somewhere), every state keeps at least one, every action is available somewhere.
+        # The planner's default prior is then uniform on the available actions and 0 (clamped to the smallest
+        # float) elsewhere; rewards are kept >= 0 unless the weight is >= 1/2, so that exp(-q/weight) stays far
+        # below 1/tiny (otherwise the clamped prior of an unavailable action takes over the softmax: reported).
+        avail = [[True] * nA for _ in range(nS)]
+        for a_ in range(nA):
+            avail[rng.randrange(nS)][a_] = False
+        for s_ in range(nS):
+            for a_ in range(nA):
+                if rng.random() < .2:
+                    avail[s_][a_] = False
+        for s_ in range(nS):
+            if not any(avail[s_]):
+                avail[s_][rng.randrange(nA)] = True
+        for a_ in range(nA):
+            if not any(avail[s_][a_] for s_ in range(nS)):
+                avail[rng.randrange(nS)][a_] = True
+        lo = -5 if F(lam) >= F(1, 2) else 0
+        T = [[list(r) for r in mm] for mm in c["T"]]
+        R = [[[str(rng.randint(lo, 8 + lo)) for _ in range(nS)] for _ in range(nA)] for _ in range(nS)]
+        for s_ in range(nS):
+            for a_ in range(nA):
+                if not avail[s_][a_]:
+                    T[s_][a_], R[s_][a_] = ["0"] * nS, ["0"] * nS
+        c.update({"T": T, "R": R, "avail": avail})
     return [c]
 
 
@@ -433,7 +460,7 @@ def fam_history(rng, variant):
 
 
 SCHEDULE = (
-    [("general",)] * 3 + [("ladder",)] + [("planner", v) for v in ("perm", "str", "tuple", "start", "prior", "default_cap", "cap1", "reuse")]
+    [("general",)] * 3 + [("ladder",)] + [("planner", v) for v in ("perm", "str", "tuple", "start", "prior", "default_cap", "cap1", "reuse", "avail", "avail")]
     + [("general",)] * 2
     + [("boundary", v) for v in ("gamma0_int", "gamma0_float", "gamma_near_1", "tiny_prob", "prior_edge", "one_state", "reward_1e3", "reward_1e5",
                                    "tiny_decisive", "tiny_prior", "big_neartie_1e3", "big_neartie_1e6", "nondyadic", "square", "chain")]
@@ -466,7 +493,10 @@ def full_arrays(case, res=None):
     T = [[[F(case["T"][s][a][n]) for n in st] for a in ac] for s in st]
     R = [[[F(Rb[s if len(Rb) > 1 else 0][a if len(Rb[0]) > 1 else 0][n if len(Rb[0][0]) > 1 else 0])
            for n in st] for a in ac] for s in st]
-    if case["pi0"] is None:
+    if case.get("avail"):
+        # planner default prior am/am.sum: uniform over the actions that can be taken, 0 elsewhere
+        p0 = [[(F(1, sum(case["avail"][s])) if case["avail"][s][a] else F(0)) for a in ac] for s in st]
+    elif case["pi0"] is None:
         p0 = [[F(1, nA)] * nA for _ in st]
     else:
         p0 = [[F(case["pi0"][s if len(case["pi0"]) > 1 else 0][a]) for a in ac] for s in st]
@@ -485,8 +515,8 @@ def mpf(x):
 
 def soft_parts(p0s, qs, lam):
     """(shift c, softmax list, lse) of one state in 60-digit arithmetic"""
-    c = max(qs)
-    w = [mpf(p) * mpmath.exp(mpf(q - c) / mpf(lam)) for p, q in zip(p0s, qs)]
+    c = max(q for p, q in zip(p0s, qs) if p > 0)
+    w = [mpf(p) * mpmath.exp(mpf(q - c) / mpf(lam)) if p > 0 else mpmath.mpf(0) for p, q in zip(p0s, qs)]
     Z = mpmath.fsum(w)
     return c, [x / Z for x in w], mpf(c) + mpf(lam) * mpmath.log(Z), Z
 
@@ -495,7 +525,7 @@ def kl_terms(pis, sm, p0s, qs, lam, c, Z):
     """KL(pi || softmax) with ln softmax taken analytically (softmax may underflow any float)"""
     tot = mpmath.mpf(0)
     for p, p0, q in zip(pis, p0s, qs):
-        if p > 0:
+        if p > 0 and p0 > 0:
             lnsm = mpmath.log(mpf(p0)) + mpf(q - c) / mpf(lam) - mpmath.log(Z)
             tot += mpf(p) * (mpmath.log(mpf(p)) - lnsm)
     return tot
@@ -516,8 +546,11 @@ class Eval:
         self.case, self.res = case, res
         self.T, self.R, self.p0, self.lam_given, self.g = full_arrays(case, res)
         self.nS, self.nA = len(self.T), len(self.T[0])
-        self.q = [[vlib.frac(x) for x in row] for row in res["q"]]
-        self.pi = [[vlib.frac(x) for x in row] for row in res["pi"]]
+        # a planner table may leave out entries of actions that cannot be taken in a state: not observed, no goal
+        self.skip = {(s, a) for s, row in enumerate(res["q"]) for a, x in enumerate(row) if x is None} | \
+                    {(s, a) for s, row in enumerate(res["pi"]) for a, x in enumerate(row) if x is None}
+        self.q = [[vlib.frac(x) if x is not None else F(0) for x in row] for row in res["q"]]
+        self.pi = [[vlib.frac(x) if x is not None else F(0) for x in row] for row in res["pi"]]
         self.v = [vlib.frac(x) for x in res["v"]]
         self.scale = max([F(1)] + [abs(x) for x in self.v] + [abs(x) for r in self.q for x in r]
                          + [abs(t * x) for mt, mr in zip(self.T, self.R) for rt, rr in zip(mt, mr) for t, x in zip(rt, rr)])
@@ -556,6 +589,8 @@ class Eval:
         out = []
         for s in range(self.nS):
             for a in range(self.nA):
+                if (s, a) in self.skip:
+                    continue
                 d = abs(self.q[s][a] - self.look(self.v, s, a))
                 if d > self.eps1:
                     out.append(("e1", s, a, "action value is not the one-step look-ahead of the state values", float(d), float(self.eps1)))
@@ -625,7 +660,7 @@ def case_module(idx, ev, sel=None):
     """-> (text lines, [(lemma name, kind, s, a)])"""
     nS, nA = ev.nS, ev.nA
     states = [s for s in range(nS) if sel is None or s in sel["s"]]
-    pairs = [(s, a) for s in range(nS) for a in range(nA) if sel is None or (s, a) in sel["sa"]]
+    pairs = [(s, a) for s in range(nS) for a in range(nA) if (sel is None or (s, a) in sel["sa"]) and (s, a) not in ev.skip]
     L = ["Module K%d." % idx,
          "Definition Tt : list (list (list R)) := %s." % rten(ev.T),
          "Definition Rt : list (list (list R)) := %s." % rten(ev.R),
@@ -732,7 +767,7 @@ def exact_qstar(T, R, g):
 # ---------------------------------------------------------------------------
 def run(ctx):
     tier = ctx.tier
-    ncases = 50 if tier == "quick" else 500
+    ncases = 52 if tier == "quick" else 520
     if ctx.replay_case:
         cases = [ctx.replay_case["detail"]["case"]]
     else:
@@ -746,7 +781,9 @@ def run(ctx):
              "states_dropped_by_reachability": 0, "repeat_calls": 0, "repeat_calls_differ": 0, "max_abs_exponent": 0.0,
              "max_abs_value": 0.0, "inputs_mutated": 0, "nondyadic_transitions": 0, "nondyadic_prior": 0, "nondyadic_discount": 0,
              "tiny_probability_cases_2^-27..2^-60": 0, "states_equal_actions": 0, "one_action": 0, "one_state": 0,
-             "max_reward_magnitude": 0.0, "min_relative_action_gap": None}
+             "max_reward_magnitude": 0.0, "min_relative_action_gap": None,
+             "unavailable_entries": 0, "unavailable_not_last_in_action_list": 0, "unavailable_entries_absent_from_tables": 0,
+             "initial_value_checks": 0, "policy_divergence_checks": 0}
     by_lam, by_group = {}, {}
     for i, (case, res) in enumerate(zip(cases, impl)):
         if "error" in res:
@@ -792,6 +829,31 @@ def run(ctx):
         ev = Eval(case, res)
         evals[i] = ev
         stats["temperature_" + ev.temperature] += 1
+        if case.get("avail"):
+            st_, ac_ = res["states"], res["actions"]
+            stats["unavailable_entries"] += sum(1 for s_ in st_ for a_ in ac_ if not case["avail"][s_][a_])
+            stats["unavailable_not_last_in_action_list"] += sum(1 for s_ in st_ for a_ in ac_[:-1] if not case["avail"][s_][a_])
+            stats["unavailable_entries_absent_from_tables"] += len(ev.skip)
+        # planner tables that are functions of the three checked ones
+        if case["via"] == "planner":
+            nS_ = case["nS"]
+            init = {case["start"]: F(1)} if case.get("start") is not None else {s_: F(1, nS_) for s_ in range(nS_)}
+            if res.get("initial_value") is not None and not isinstance(res["initial_value"], str):
+                stats["initial_value_checks"] += 1
+                want = sum(p_ * ev.v[res["states"].index(s_)] for s_, p_ in init.items() if s_ in res["states"])
+                if abs(vlib.frac(res["initial_value"]) - want) > F(1, 10**12) * ev.scale:
+                    ctx.violation("C19:planner:initial_value is not the initial-state expectation of the reported state values",
+                                  {"case": case, "impl": res, "expected": float(want)}, found=True)
+            div = res.get("policy_divergence")
+            if div is not None and all(x is not None and not isinstance(x, str) for x in div):
+                stats["policy_divergence_checks"] += 1
+                for s_ in range(ev.nS):
+                    kl = mpmath.fsum(mpf(p_) * (mpmath.log(mpf(p_)) - mpmath.log(mpf(p0_)))
+                                     for p_, p0_ in zip(ev.pi[s_], ev.p0[s_]) if p_ > 0 and p0_ > 0)
+                    if abs(mpf(vlib.frac(div[s_])) - kl) > mpmath.mpf("1e-4") * (1 + abs(kl)):
+                        ctx.violation("C19:planner:policy_divergence is not the divergence of the reported policy from the prior",
+                                      {"case": case, "impl": res, "state_index": s_, "expected": float(kl)}, found=True)
+                        break
         stats["clamped_policy_entries"] += sum(1 for row in ev.pi for x in row if 0 < x < F(1, 10**300))
         stats["zero_policy_entries"] += sum(1 for row in ev.pi for x in row if x == 0)
         stats["max_abs_exponent"] = max(stats["max_abs_exponent"], max(float((ev.c[s] - x) / ev.lam[s]) for s in range(ev.nS) for x in ev.q[s]))
@@ -845,6 +907,8 @@ def run(ctx):
     for i, ev in evals.items():
         if any(idx == i for (idx, _) in failed):
             continue
+        if any(x == 0 for r in ev.p0 for x in r):
+            continue          # state-dependent action sets: the rate theorem is stated for full-support priors
         Qs = exact_qstar(ev.T, ev.R, ev.g)
         if Qs is None:
             continue
